@@ -6,8 +6,8 @@ from ..lib import is_call, loc
 from ..terms import App, Atom, Obj, Sub, Term, mentions, vkey
 from .common import ddict, ds, scan, st, worker
 from .C03 import r_predicates
-from .C04 import r3_r4_flush, r6_fetch_queue, _notify_state
-from .C10 import r3_binding, r4_r6_outputs
+from .C04 import r3_r4_flush, r6_fetch_queue, r7_available_writers, _notify_state
+from .C10 import r3_binding, r4_r6_outputs, r9_memory_lifecycle
 from .C02 import r5_act, r8_publication_fanout
 
 NOTIFY = "cascade.controller.notify"
@@ -199,5 +199,5 @@ def r2_fetch_on_publication(ctx):
 
 from .sched import r_no_downgrade, r_transfer_source  # noqa: E402
 
-RULES = [r_no_downgrade, r_transfer_source, r8_events_returned, r_predicates, r2_fetch_on_publication, r3_r4_flush, r4_output_store, r5_commands, r3_binding, r4_r6_outputs, r7_memory,
+RULES = [r_no_downgrade, r_transfer_source, r7_available_writers, r8_events_returned, r_predicates, r2_fetch_on_publication, r3_r4_flush, r4_output_store, r5_commands, r3_binding, r4_r6_outputs, r7_memory, r9_memory_lifecycle,
          r5_act, r8_publication_fanout]
